@@ -232,6 +232,18 @@ Section ExtLag.
     | i :: r => let s' := step c p s i in s' :: trace c p s' r
     end.
 
+  (* nothing is written before the extended coordinate is first set (a variable with timeStepFactor > 1 in a job that started
+     between two of its steps); set_state_params without the two values leaves the coordinate unset: it is initialised at
+     the variable's first update *)
+  Definition saved_xv_opt (s : state) (t : Z) : option (T * T) :=
+    match s_x_ext s with None => None | Some _ => Some (saved_xv s t) end.
+
+  Definition restart_state_opt (o : option (T * T)) : state :=
+    match o with
+    | Some (x, v) => restart_state x v
+    | None => mkState None zero zero zero (-1)%Z zero true zero zero zero zero zero zero zero false
+    end.
+
   (* value of the variable written to the state (the "x" line of get_state_params): the last computed one *)
   Definition saved_value (s : state) : T := s_x_old s.
 
